@@ -348,12 +348,17 @@ func universe(kind int, n int, pick func(int) int) []string {
 		// single bytes spread over the whole range plus a second level under one byte,
 		// enough siblings to cross every node size threshold
 		base := byte(pick(256))
-		for i := 0; i < n; i++ {
-			if i%5 == 4 {
-				add(string([]byte{base, byte(i * 3)}))
-			} else {
-				add(string([]byte{byte(int(base) + i*7)}))
-			}
+		// a block of two-byte keys under one first byte (an inner node that grows past 16 and 48
+		// children and shrinks again), then single bytes spread over the whole range
+		m := 20 + pick(40)
+		if m > n {
+			n = m + 10
+		}
+		for i := 0; i < m; i++ {
+			add(string([]byte{base, byte(i * 4)}))
+		}
+		for i := 0; len(out) < n; i++ {
+			add(string([]byte{byte(int(base) + 1 + i*7)}))
 		}
 	case AlphaLongPrefix:
 		prefix := strings.Repeat("p", 6+pick(10))
